@@ -190,3 +190,14 @@ CHECKS['C05'] = (
     SCHED_TB + '; ' + EXEC_TB + '; components assembled hollow in one process, Agent_0 queue hops are stand-ins, state/control '
     'pubsubs joined by the real crosswire closures, stage polls are atomic (intra-component interleavings are C04/C07)',
     'DESIGN.md 4/C05')
+CHECKS['C10'] = (
+    'property-based testing (Hypothesis, seeded): generated task descriptions -> real script generation of the Popen '
+    'executor and Fork/MPIRun launch methods -> the scripts are EXECUTED by bash with a probe executable; oracle on the '
+    'observed argv / environment / cwd / files / trace order / exit code',
+    'random search over argument and environment values built from a shell-hostile alphabet (blanks, quotes, backslashes, '
+    'globs, ;&|<>()!#~, unicode, $-forms), stdout/stderr names, pre/post_exec lists (global, per-rank, failing), ranks '
+    '1-3, GPU assignment, exit codes, sandbox layouts; no counterexample in the explored domain, coverage measured; not a proof',
+    TB + '; bash and coreutils as installed; probe script, fake mpirun (N copies with PMIX_RANK=i), prof/gtod stubs are '
+    'harness code; launch methods other than FORK/MPIRUN, named environments, services, startup_timeout not reached; '
+    '$-forms are documented to expand (ru.sh_quote) and are only required to behave as the shell would',
+    'DESIGN.md 4/C10')
